@@ -165,3 +165,1034 @@ Proof.
 Qed.
 
 Definition pn (f : inst -> bool) (s : est) : nat := nf f (map snd (e_pend s)).
+
+(* ------------------------------------------------------------------ one weight *)
+
+Definition dw_calls (hooks : list hook) (m : mname) (w : Z) : list hook :=
+  filter is_call (hooks_at hooks (m, w)).
+Definition dw_pend1 (hooks : list hook) (orc : oracle) (m : mname) (w : Z) (s : est) :=
+  e_pend s ++ map (fun h => (h_await h, new_inst orc h)) (dw_calls hooks m w).
+Definition dw_coll hooks orc m w s : list inst :=
+  map snd (filter (at_point (m, w)) (dw_pend1 hooks orc m w s)).
+Definition dw_pend2 hooks orc m w s : list (point * inst) :=
+  filter (fun e => negb (at_point (m, w) e)) (dw_pend1 hooks orc m w s).
+Definition dw_t1 hooks orc m w s : list tev :=
+  map (fun h => TStart (new_inst orc h) h (e_rv s)) (dw_calls hooks m w).
+Definition dw_t2 hooks orc m w s : list tev :=
+  map (fun i => TCollect i (m, w)) (dw_coll hooks orc m w s).
+Definition dw_tasks (hooks : list hook) (m : mname) (w : Z) : list N :=
+  map h_id (filter is_task (hooks_at hooks (m, w))).
+
+(* what phase 3 may add to the trace *)
+Definition phase3_ev (p : point) (e : tev) : Prop :=
+  match e with TUnsure q | TCrash q | TTasks _ q => q = p | _ => False end.
+
+Lemma do_weight_shape hooks orc m w s s' t f c :
+  do_weight hooks orc m w s = (s', t, f, c) ->
+  e_pend s' = dw_pend2 hooks orc m w s /\
+  e_st s' = e_st s /\ e_rv s' = e_rv s /\ e_clock s' = e_clock s /\ e_ctr s' = e_ctr s /\
+  exists t3, t = dw_t1 hooks orc m w s ++ dw_t2 hooks orc m w s ++ t3 /\ Forall (phase3_ev (m, w)) t3.
+Proof.
+  unfold do_weight. fold (dw_calls hooks m w). fold (dw_pend1 hooks orc m w s).
+  fold (dw_coll hooks orc m w s). fold (dw_pend2 hooks orc m w s).
+  fold (dw_t1 hooks orc m w s). fold (dw_t2 hooks orc m w s). fold (dw_tasks hooks m w).
+  set (t3 := match dw_tasks hooks m w with
+             | [] => []
+             | _ :: _ => match e_stale s with [] => [] | _ :: _ => [TUnsure (m, w)] end ++
+                         [TTasks (dw_tasks hooks m w) (m, w)]
+             end).
+  assert (H3 : Forall (phase3_ev (m, w)) t3).
+  { unfold t3. destruct (dw_tasks hooks m w); [constructor|].
+    destruct (e_stale s); cbn; repeat constructor. }
+  set (s2 := if match dw_tasks hooks m w with [] => false | _ :: _ => trig_fails (dw_tasks hooks m w) (or_touts orc) end
+             then add_stale (dw_tasks hooks m w) (set_pend (dw_pend2 hooks orc m w s) s)
+             else set_pend (dw_pend2 hooks orc m w s) s).
+  assert (Hs2 : e_pend s2 = dw_pend2 hooks orc m w s /\ e_st s2 = e_st s /\ e_rv s2 = e_rv s /\
+                e_clock s2 = e_clock s /\ e_ctr s2 = e_ctr s).
+  { unfold s2. destruct (match dw_tasks hooks m w with [] => false | _ :: _ => _ end); cbn; auto. }
+  destruct (run_tasks (e_stale s) (steal_of orc) (dw_tasks hooks m w) (or_touts orc)) as [errs|].
+  - destruct (filter (fun i => i_fail i && i_crit i) (dw_coll hooks orc m w s)) eqn:Ec;
+      [destruct (filter (crit_of hooks) (filter (fun h => memN h errs) (dw_tasks hooks m w))) eqn:Et|];
+      intro H; inversion H; subst; clear H;
+      (destruct Hs2 as (A & B & C & D & E); repeat (split; [assumption|]); exists t3; split; [reflexivity|exact H3]).
+  - intro H; inversion H; subst; clear H.
+    destruct Hs2 as (A & B & C & D & E); repeat (split; [assumption|]).
+    exists (t3 ++ [TCrash (m, w)]). split; [reflexivity|].
+    apply Forall_app. split; [exact H3|repeat constructor].
+Qed.
+
+(* critical failures reported by one weight *)
+Lemma do_weight_fail hooks orc m w s s' t f c :
+  do_weight hooks orc m w s = (s', t, f, c) -> c = false ->
+  match f with
+  | None => filter (fun i => i_fail i && i_crit i) (dw_coll hooks orc m w s) = []
+  | Some wf => wf_calls wf = filter (fun i => i_fail i && i_crit i) (dw_coll hooks orc m w s) /\
+               (wf_calls wf <> [] \/ wf_tasks wf <> [])
+  end.
+Proof.
+  unfold do_weight. fold (dw_calls hooks m w). fold (dw_pend1 hooks orc m w s).
+  fold (dw_coll hooks orc m w s). fold (dw_tasks hooks m w).
+  destruct (run_tasks (e_stale s) (steal_of orc) (dw_tasks hooks m w) (or_touts orc)) as [errs|].
+  - destruct (filter (fun i => i_fail i && i_crit i) (dw_coll hooks orc m w s)) eqn:Ec;
+      [destruct (filter (crit_of hooks) (filter (fun h => memN h errs) (dw_tasks hooks m w))) eqn:Et|];
+      intros H _; inversion H; subst; clear H; cbn.
+    + reflexivity.
+    + split; [reflexivity|]. right. discriminate.
+    + split; [reflexivity|]. left. discriminate.
+  - intros H Hc. inversion H; subst. discriminate.
+Qed.
+
+Lemma starts_map_start {A} (F : A -> inst) (G : A -> hook) (r : rvars) (l : list A) :
+  starts (map (fun h => TStart (F h) (G h) r) l) = map F l.
+Proof. induction l as [|x l IH]; cbn; [reflexivity|]. f_equal. exact IH. Qed.
+Lemma collects_map_start {A} (F : A -> inst) (G : A -> hook) (r : rvars) (l : list A) :
+  collects (map (fun h => TStart (F h) (G h) r) l) = [].
+Proof. induction l as [|x l IH]; cbn; [reflexivity|]. exact IH. Qed.
+Lemma cancels_map_start {A} (F : A -> inst) (G : A -> hook) (r : rvars) (l : list A) :
+  cancels (map (fun h => TStart (F h) (G h) r) l) = [].
+Proof. induction l as [|x l IH]; cbn; [reflexivity|]. exact IH. Qed.
+Lemma starts_map_collect p (l : list inst) : starts (map (fun i => TCollect i p) l) = [].
+Proof. induction l as [|x l IH]; cbn; [reflexivity|]. exact IH. Qed.
+Lemma collects_map_collect p (l : list inst) : collects (map (fun i => TCollect i p) l) = l.
+Proof. induction l as [|x l IH]; cbn; [reflexivity|]. f_equal. exact IH. Qed.
+Lemma cancels_map_collect p (l : list inst) : cancels (map (fun i => TCollect i p) l) = [].
+Proof. induction l as [|x l IH]; cbn; [reflexivity|]. exact IH. Qed.
+
+Lemma phase3_no_calls p t :
+  Forall (phase3_ev p) t -> starts t = [] /\ collects t = [] /\ cancels t = [].
+Proof.
+  induction 1 as [|e t He _ IH]; [auto|]. destruct IH as (A & B & C).
+  destruct e; cbn in He; try contradiction; cbn; auto.
+Qed.
+
+(* calls started + calls pending before = calls collected + calls pending after, for every
+   set [g] of instances *)
+Lemma do_weight_count hooks orc m w s s' t f c (g : inst -> bool) :
+  do_weight hooks orc m w s = (s', t, f, c) ->
+  (nf g (starts t) + pn g s = nf g (collects t) + pn g s')%nat /\ cancels t = [].
+Proof.
+  intro H. apply do_weight_shape in H.
+  destruct H as (Hp & _ & _ & _ & _ & t3 & -> & H3).
+  apply phase3_no_calls in H3. destruct H3 as (A & B & C).
+  unfold pn. rewrite Hp.
+  rewrite !starts_app, !collects_app, !cancels_app, A, B, C.
+  unfold dw_t1, dw_t2.
+  rewrite (starts_map_start (new_inst orc) (fun h => h)), starts_map_collect.
+  rewrite (collects_map_start (new_inst orc) (fun h => h)), collects_map_collect.
+  rewrite (cancels_map_start (new_inst orc) (fun h => h)), cancels_map_collect.
+  rewrite !app_nil_r. cbn [app]. split; [|reflexivity].
+  unfold dw_coll, dw_pend2.
+  pose proof (nf_partition g snd (at_point (m, w)) (dw_pend1 hooks orc m w s)) as HP.
+  assert (E : nf g (map snd (dw_pend1 hooks orc m w s)) =
+              (nf g (map snd (e_pend s)) + nf g (map (new_inst orc) (dw_calls hooks m w)))%nat).
+  { unfold dw_pend1. rewrite map_app, nf_app, map_map. reflexivity. }
+  lia.
+Qed.
+
+(* ------------------------------------------------------------------ one pass (handleHooks) *)
+
+Definition critfail (i : inst) : bool := i_fail i && i_crit i.
+
+Lemma do_weight_collects hooks orc m w s s' t f c :
+  do_weight hooks orc m w s = (s', t, f, c) -> collects t = dw_coll hooks orc m w s.
+Proof.
+  intro H. apply do_weight_shape in H.
+  destruct H as (_ & _ & _ & _ & _ & t3 & -> & H3).
+  apply phase3_no_calls in H3. destruct H3 as (A & B & C).
+  rewrite !collects_app, B. unfold dw_t1, dw_t2.
+  rewrite (collects_map_start (new_inst orc) (fun h => h)), collects_map_collect.
+  rewrite app_nil_r. reflexivity.
+Qed.
+
+Lemma pass_loop_frame hooks orc m ws : forall s s' t p,
+  pass_loop hooks orc m ws s = (s', t, p) ->
+  e_st s' = e_st s /\ e_rv s' = e_rv s /\ e_clock s' = e_clock s /\ e_ctr s' = e_ctr s.
+Proof.
+  induction ws as [|w ws IH]; intros s s' t p; cbn.
+  - intro H. inversion H. auto.
+  - destruct (do_weight hooks orc m w s) as [[[s1 t1] f] c] eqn:E.
+    apply do_weight_shape in E. destruct E as (_ & A & B & C & D & _).
+    destruct c.
+    + intro H. inversion H; subst. auto.
+    + destruct f as [wf|].
+      * intro H. inversion H; subst. auto.
+      * destruct (pass_loop hooks orc m ws s1) as [[s2 t2] p2] eqn:E2.
+        apply IH in E2. intro H. inversion H; subst.
+        destruct E2 as (A2 & B2 & C2 & D2). repeat split; congruence.
+Qed.
+
+Lemma pass_loop_count hooks orc m ws (g : inst -> bool) : forall s s' t p,
+  pass_loop hooks orc m ws s = (s', t, p) ->
+  (nf g (starts t) + pn g s = nf g (collects t) + pn g s')%nat /\ cancels t = [].
+Proof.
+  induction ws as [|w ws IH]; intros s s' t p; cbn.
+  - intro H. inversion H. cbn. split; [lia|reflexivity].
+  - destruct (do_weight hooks orc m w s) as [[[s1 t1] f] c] eqn:E.
+    apply (do_weight_count _ _ _ _ _ _ _ _ _ g) in E. destruct E as [E Ec].
+    destruct c.
+    + intro H. inversion H; subst. split; [lia|exact Ec].
+    + destruct f as [wf|].
+      * intro H. inversion H; subst. split; [lia|exact Ec].
+      * destruct (pass_loop hooks orc m ws s1) as [[s2 t2] p2] eqn:E2.
+        apply IH in E2. destruct E2 as [E2 Ec2]. intro H. inversion H; subst.
+        rewrite starts_app, collects_app, cancels_app, !nf_app, Ec, Ec2. split; [lia|reflexivity].
+Qed.
+
+(* the critical failing calls collected in a pass are exactly those of the returned error *)
+Lemma filter_critfail_app a b : filter critfail (a ++ b) = filter critfail a ++ filter critfail b.
+Proof. apply filter_app. Qed.
+
+Lemma pass_loop_crit hooks orc m ws : forall s s' t p,
+  pass_loop hooks orc m ws s = (s', t, p) ->
+  match p with
+  | POk => filter critfail (collects t) = []
+  | PFail m' f => m' = m /\ filter critfail (collects t) = wf_calls f /\
+                  (wf_calls f <> [] \/ wf_tasks f <> [])
+  | PCrash => True
+  end.
+Proof.
+  induction ws as [|w ws IH]; intros s s' t p; cbn.
+  - intro H. inversion H. reflexivity.
+  - destruct (do_weight hooks orc m w s) as [[[s1 t1] f] c] eqn:E.
+    pose proof (do_weight_collects _ _ _ _ _ _ _ _ _ E) as Hc.
+    destruct c.
+    + intro H. inversion H; subst. exact I.
+    + pose proof (do_weight_fail _ _ _ _ _ _ _ _ _ E eq_refl) as Hf.
+      destruct f as [wf|].
+      * intro H. inversion H; subst. destruct Hf as [Hf1 Hf2].
+        split; [reflexivity|]. split; [|exact Hf2]. rewrite Hc. symmetry. exact Hf1.
+      * destruct (pass_loop hooks orc m ws s1) as [[s2 t2] p2] eqn:E2.
+        apply IH in E2. intro H. inversion H; subst.
+        rewrite collects_app, filter_critfail_app, Hc.
+        fold critfail in Hf. rewrite Hf. cbn [app].
+        destruct p; exact E2.
+Qed.
+
+(* events of a pass *)
+Definition pass_ev (hooks : list hook) (orc : oracle) (m : mname) (ws : list Z) (r : rvars) (e : tev) : Prop :=
+  match e with
+  | TStart i h snap => In h hooks /\ is_call h = true /\ fst (h_trig h) = m /\ In (snd (h_trig h)) ws /\
+                       i = new_inst orc h /\ snap = r
+  | TCollect _ p | TTasks _ p | TUnsure p | TCrash p => fst p = m /\ In (snd p) ws
+  | _ => False
+  end.
+
+Lemma hooks_at_in hooks p h : In h (hooks_at hooks p) <-> In h hooks /\ h_trig h = p.
+Proof. unfold hooks_at. rewrite filter_In, point_eqb_spec. tauto. Qed.
+
+Lemma do_weight_events hooks orc m w s s' t f c :
+  do_weight hooks orc m w s = (s', t, f, c) -> Forall (pass_ev hooks orc m [w] (e_rv s)) t.
+Proof.
+  intro H. apply do_weight_shape in H.
+  destruct H as (_ & _ & _ & _ & _ & t3 & -> & H3).
+  rewrite !Forall_app. repeat split.
+  - unfold dw_t1, dw_calls. rewrite Forall_forall. intros e He. apply in_map_iff in He.
+    destruct He as [h [<- Hh]]. apply filter_In in Hh. destruct Hh as [Hh Hc].
+    apply hooks_at_in in Hh. destruct Hh as [Hh Ht]. cbn. rewrite Ht. cbn. intuition.
+  - unfold dw_t2. rewrite Forall_forall. intros e He. apply in_map_iff in He.
+    destruct He as [i [<- _]]. cbn. auto.
+  - rewrite Forall_forall in *. intros e He. specialize (H3 e He).
+    destruct e; cbn in *; try contradiction; subst; cbn; auto.
+Qed.
+
+Lemma pass_ev_weaken hooks orc m ws ws' r e :
+  (forall w, In w ws -> In w ws') -> pass_ev hooks orc m ws r e -> pass_ev hooks orc m ws' r e.
+Proof.
+  intros Hs. destruct e; cbn; try tauto.
+  - intros (A & B & C & D & E & F). auto 10.
+  - intros [A B]. auto.
+  - intros [A B]. auto.
+  - intros [A B]. auto.
+  - intros [A B]. auto.
+Qed.
+
+Lemma pass_loop_events hooks orc m ws : forall s s' t p,
+  pass_loop hooks orc m ws s = (s', t, p) -> Forall (pass_ev hooks orc m ws (e_rv s)) t.
+Proof.
+  induction ws as [|w ws IH]; intros s s' t p; cbn.
+  - intro H. inversion H. constructor.
+  - destruct (do_weight hooks orc m w s) as [[[s1 t1] f] c] eqn:E.
+    pose proof (do_weight_events _ _ _ _ _ _ _ _ _ E) as He.
+    assert (He' : Forall (pass_ev hooks orc m (w :: ws) (e_rv s)) t1).
+    { eapply Forall_impl; [|exact He]. intros e. apply pass_ev_weaken.
+      intros x [->|[]]. left. reflexivity. }
+    apply do_weight_shape in E. destruct E as (_ & _ & Hrv & _).
+    destruct c.
+    + intro H. inversion H; subst. exact He'.
+    + destruct f as [wf|].
+      * intro H. inversion H; subst. exact He'.
+      * destruct (pass_loop hooks orc m ws s1) as [[s2 t2] p2] eqn:E2.
+        apply IH in E2. intro H. inversion H; subst.
+        apply Forall_app. split; [exact He'|].
+        rewrite Hrv in E2. eapply Forall_impl; [|exact E2]. intros e. apply pass_ev_weaken.
+        intros x Hx. right. exact Hx.
+Qed.
+
+(* key inside a pass: 3 * weight + (0 start, 1 collect, 2 hook tasks) *)
+Definition wkey (e : tev) : Z :=
+  match e with
+  | TStart _ h _ => 3 * snd (h_trig h)
+  | TCollect _ p => 3 * snd p + 1
+  | TTasks _ p | TUnsure p | TCrash p => 3 * snd p + 2
+  | _ => 0
+  end%Z.
+
+Lemma do_weight_sorted hooks orc m w s s' t f c :
+  do_weight hooks orc m w s = (s', t, f, c) ->
+  StronglySorted Z.le (map wkey t) /\ Forall (fun e => 3 * w <= wkey e <= 3 * w + 2)%Z t.
+Proof.
+  intro H. apply do_weight_shape in H.
+  destruct H as (_ & _ & _ & _ & _ & t3 & -> & H3).
+  assert (K1 : Forall (fun e => wkey e = 3 * w)%Z (dw_t1 hooks orc m w s)).
+  { unfold dw_t1, dw_calls. rewrite Forall_forall. intros e He. apply in_map_iff in He.
+    destruct He as [h [<- Hh]]. apply filter_In in Hh. destruct Hh as [Hh _].
+    apply hooks_at_in in Hh. destruct Hh as [_ Ht]. cbn. rewrite Ht. reflexivity. }
+  assert (K2 : Forall (fun e => wkey e = 3 * w + 1)%Z (dw_t2 hooks orc m w s)).
+  { unfold dw_t2. rewrite Forall_forall. intros e He. apply in_map_iff in He.
+    destruct He as [i [<- _]]. reflexivity. }
+  assert (K3 : Forall (fun e => wkey e = 3 * w + 2)%Z t3).
+  { rewrite Forall_forall in *. intros e He. specialize (H3 e He).
+    destruct e; cbn in *; try contradiction; subst; reflexivity. }
+  split.
+  - rewrite !map_app.
+    assert (G : forall (k : Z) l, Forall (fun e => wkey e = k) l -> StronglySorted Z.le (map wkey l) /\
+                                   Forall (fun x => x = k) (map wkey l)).
+    { intros k l. induction 1 as [|e l He _ [IH1 IH2]]; cbn; [split; constructor|].
+      split.
+      - constructor; [exact IH1|]. rewrite Forall_forall in *. intros x Hx. rewrite (IH2 x Hx). lia.
+      - constructor; [exact He|exact IH2]. }
+    destruct (G _ _ K1) as [S1 F1], (G _ _ K2) as [S2 F2], (G _ _ K3) as [S3 F3].
+    assert (App : forall l1 l2, StronglySorted Z.le l1 -> StronglySorted Z.le l2 ->
+                   (forall a b, In a l1 -> In b l2 -> (a <= b)%Z) -> StronglySorted Z.le (l1 ++ l2)).
+    { intros l1 l2 A. induction A as [|x l1 A IH Hx]; intros B Hab; cbn; [exact B|].
+      constructor.
+      - apply IH; [exact B|]. intros a b Ha Hb. apply Hab; [right; exact Ha|exact Hb].
+      - apply Forall_app. split; [exact Hx|]. rewrite Forall_forall. intros b Hb.
+        apply Hab; [left; reflexivity|exact Hb]. }
+    rewrite Forall_forall in F1, F2, F3.
+    apply App; [exact S1| |].
+    + apply App; [exact S2|exact S3|]. intros a b Ha Hb. rewrite (F2 a Ha), (F3 b Hb). lia.
+    + intros a b Ha Hb. rewrite (F1 a Ha). apply in_app_iff in Hb.
+      destruct Hb as [Hb|Hb]; [rewrite (F2 b Hb)|rewrite (F3 b Hb)]; lia.
+  - rewrite !Forall_app. repeat split.
+    + eapply Forall_impl; [|exact K1]. cbn. intros e ->. lia.
+    + eapply Forall_impl; [|exact K2]. cbn. intros e ->. lia.
+    + eapply Forall_impl; [|exact K3]. cbn. intros e ->. lia.
+Qed.
+
+Lemma ssorted_le_app (l1 l2 : list Z) :
+  StronglySorted Z.le l1 -> StronglySorted Z.le l2 ->
+  (forall a b, In a l1 -> In b l2 -> (a <= b)%Z) -> StronglySorted Z.le (l1 ++ l2).
+Proof.
+  intros A. induction A as [|x l1 A IH Hx]; intros B Hab; cbn; [exact B|].
+  constructor.
+  - apply IH; [exact B|]. intros a b Ha Hb. apply Hab; [right; exact Ha|exact Hb].
+  - apply Forall_app. split; [exact Hx|]. rewrite Forall_forall. intros b Hb.
+    apply Hab; [left; reflexivity|exact Hb].
+Qed.
+
+(* within a pass: ascending weight; at one weight all starts, then all collects, then the hook
+   tasks *)
+Lemma pass_loop_sorted hooks orc m ws : StronglySorted Z.lt ws -> forall s s' t p,
+  pass_loop hooks orc m ws s = (s', t, p) ->
+  StronglySorted Z.le (map wkey t) /\
+  Forall (fun e => exists w, In w ws /\ 3 * w <= wkey e <= 3 * w + 2)%Z t.
+Proof.
+  induction 1 as [|w ws Hs IH Hw]; intros s s' t p; cbn.
+  - intro H. inversion H. split; constructor.
+  - destruct (do_weight hooks orc m w s) as [[[s1 t1] f] c] eqn:E.
+    apply do_weight_sorted in E. destruct E as [S1 B1].
+    assert (B1' : Forall (fun e => exists w0, In w0 (w :: ws) /\ 3 * w0 <= wkey e <= 3 * w0 + 2)%Z t1).
+    { eapply Forall_impl; [|exact B1]. intros e He. exists w. split; [left; reflexivity|exact He]. }
+    destruct c.
+    + intro H. inversion H; subst. split; assumption.
+    + destruct f as [wf|].
+      * intro H. inversion H; subst. split; assumption.
+      * destruct (pass_loop hooks orc m ws s1) as [[s2 t2] p2] eqn:E2.
+        apply IH in E2. destruct E2 as [S2 B2]. intro H. inversion H; subst.
+        split.
+        -- rewrite map_app. apply ssorted_le_app; [exact S1|exact S2|].
+           intros a b Ha Hb. apply in_map_iff in Ha. destruct Ha as [ea [<- Ha]].
+           apply in_map_iff in Hb. destruct Hb as [eb [<- Hb]].
+           rewrite Forall_forall in B1, B2, Hw.
+           specialize (B1 ea Ha). destruct (B2 eb Hb) as [w' [Hw' Hk]].
+           specialize (Hw w' Hw'). lia.
+        -- apply Forall_app. split; [exact B1'|].
+           eapply Forall_impl; [|exact B2]. intros e [w' [Hw' Hk]]. exists w'. split; [right; exact Hw'|exact Hk].
+Qed.
+
+(* ------------------------------------------------------------------ run_pass wrappers *)
+
+Lemma run_pass_frame hooks orc m pred s s' t p :
+  run_pass hooks orc m pred s = (s', t, p) ->
+  e_st s' = e_st s /\ e_rv s' = e_rv s /\ e_clock s' = e_clock s /\ e_ctr s' = e_ctr s.
+Proof. apply pass_loop_frame. Qed.
+
+Lemma run_pass_count hooks orc m pred (g : inst -> bool) s s' t p :
+  run_pass hooks orc m pred s = (s', t, p) ->
+  (nf g (starts t) + pn g s = nf g (collects t) + pn g s')%nat /\ cancels t = [].
+Proof. apply pass_loop_count. Qed.
+
+Lemma run_pass_crit hooks orc m pred s s' t p :
+  run_pass hooks orc m pred s = (s', t, p) ->
+  match p with
+  | POk => filter critfail (collects t) = []
+  | PFail m' f => m' = m /\ filter critfail (collects t) = wf_calls f /\
+                  (wf_calls f <> [] \/ wf_tasks f <> [])
+  | PCrash => True
+  end.
+Proof. apply pass_loop_crit. Qed.
+
+Lemma run_pass_events hooks orc m pred s s' t p :
+  run_pass hooks orc m pred s = (s', t, p) ->
+  Forall (pass_ev hooks orc m (pass_weights hooks m pred s) (e_rv s)) t.
+Proof. apply pass_loop_events. Qed.
+
+Lemma run_pass_sorted hooks orc m pred s s' t p :
+  run_pass hooks orc m pred s = (s', t, p) -> StronglySorted Z.le (map wkey t).
+Proof.
+  intro H. eapply pass_loop_sorted in H; [apply H|apply pass_weights_sorted].
+Qed.
+
+(* ------------------------------------------------------------------ keys inside a transition *)
+(* segment = 5 * phase + (0 step begins, 1 negative weights, 2 built-in work, 3 non-negative
+   weights, 4 step ends); phases: 0 before_<event>, 1 leave_<state>, 2 task transition,
+   3 enter_<state>, 4 after_<event> *)
+
+Definition seg_of_point (e : evt) (src d : st) (p : point) : Z :=
+  match phase_of e src d (fst p) with
+  | Some ph => 5 * Z.of_N ph + (if wneg (snd p) then 1 else 3)
+  | None => 100
+  end.
+
+Definition tkey (e : evt) (src d : st) (x : tev) : Z * Z :=
+  match x with
+  | TStart _ h _ => (seg_of_point e src d (h_trig h), wkey x)
+  | TCollect _ p | TTasks _ p | TUnsure p | TCrash p => (seg_of_point e src d p, wkey x)
+  | TStep (SMoment m) b _ =>
+    (match phase_of e src d m with Some ph => 5 * Z.of_N ph + (if b then 0 else 4) | None => 100 end, 0)
+  | TStep (STasks _) b _ => (if b then 10 else 14, 0)
+  | TBody _ => (12, 0)
+  | TRun _ status _ => (if (status =? 0)%N then 2 else 22, 0)
+  | TCancel _ => (100, 0)
+  end%Z.
+
+Definition kle (a b : Z * Z) : Prop := (fst a < fst b \/ (fst a = fst b /\ snd a <= snd b))%Z.
+
+Definition sseg (lo hi : Z) (l : list (Z * Z)) : Prop :=
+  StronglySorted kle l /\ Forall (fun k => lo <= fst k <= hi)%Z l.
+
+Lemma sseg_nil lo hi : sseg lo hi [].
+Proof. split; constructor. Qed.
+
+Lemma sseg_single k x : sseg k k [(k, x)].
+Proof. split; repeat constructor; cbn; lia. Qed.
+
+Lemma sseg_app a b c d l1 l2 :
+  sseg a b l1 -> sseg c d l2 -> (b < c)%Z -> (a <= c)%Z -> (b <= d)%Z -> sseg a d (l1 ++ l2).
+Proof.
+  intros [S1 F1] [S2 F2] Hbc Hac Hbd. split.
+  - revert F1. induction S1 as [|x l1 S1 IH Hx]; intro F1; cbn; [exact S2|].
+    inversion F1 as [|? ? Fx F1']; subst.
+    constructor; [apply IH; exact F1'|].
+    apply Forall_app. split; [exact Hx|].
+    rewrite Forall_forall in *. intros y Hy. specialize (F2 y Hy). left. lia.
+  - apply Forall_app. split.
+    + eapply Forall_impl; [|exact F1]. cbn. intros k Hk. lia.
+    + eapply Forall_impl; [|exact F2]. cbn. intros k Hk. lia.
+Qed.
+
+Lemma sseg_weaken a b a' b' l : sseg a b l -> (a' <= a)%Z -> (b <= b')%Z -> sseg a' b' l.
+Proof.
+  intros [S F] Ha Hb. split; [exact S|]. eapply Forall_impl; [|exact F]. cbn. intros k Hk. lia.
+Qed.
+
+Lemma sseg_const c (l : list Z) :
+  StronglySorted Z.le l -> sseg c c (map (fun x => (c, x)) l).
+Proof.
+  induction 1 as [|x l S [IH1 IH2] Hx]; [apply sseg_nil|]. split.
+  - cbn. constructor; [exact IH1|]. rewrite Forall_forall in *. intros y Hy.
+    apply in_map_iff in Hy. destruct Hy as [z [<- Hz]]. right. cbn. split; [reflexivity|apply Hx; exact Hz].
+  - cbn. constructor; [cbn; lia|exact IH2].
+Qed.
+
+Lemma phase_before e src d : phase_of e src d (MBefore e) = Some 0.
+Proof. unfold phase_of. rewrite mname_eqb_refl. reflexivity. Qed.
+Lemma phase_leave e src d : phase_of e src d (MLeave src) = Some 1.
+Proof.
+  unfold phase_of. rewrite (mname_eqb_neq (MLeave src) (MBefore e)) by discriminate.
+  rewrite mname_eqb_refl. reflexivity.
+Qed.
+Lemma phase_enter e src d : phase_of e src d (MEnter d) = Some 3.
+Proof.
+  unfold phase_of. rewrite (mname_eqb_neq (MEnter d) (MBefore e)) by discriminate.
+  rewrite (mname_eqb_neq (MEnter d) (MLeave src)) by discriminate.
+  rewrite mname_eqb_refl. reflexivity.
+Qed.
+Lemma phase_after e src d : phase_of e src d (MAfter e) = Some 4.
+Proof.
+  unfold phase_of. rewrite (mname_eqb_neq (MAfter e) (MBefore e)) by discriminate.
+  rewrite (mname_eqb_neq (MAfter e) (MLeave src)) by discriminate.
+  rewrite (mname_eqb_neq (MAfter e) (MEnter d)) by discriminate.
+  rewrite mname_eqb_refl. reflexivity.
+Qed.
+
+(* the keys of a pass of moment [m] (phase ph) restricted to one sign class *)
+Lemma run_pass_keys hooks orc e src d m ph pred cls s s' t p :
+  run_pass hooks orc m pred s = (s', t, p) ->
+  phase_of e src d m = Some ph ->
+  (forall w, pred w = true -> (if wneg w then 1 else 3)%Z = cls) ->
+  sseg (5 * Z.of_N ph + cls) (5 * Z.of_N ph + cls) (map (tkey e src d) t).
+Proof.
+  intros H Hph Hcls.
+  pose proof (run_pass_sorted _ _ _ _ _ _ _ _ H) as Hs.
+  pose proof (run_pass_events _ _ _ _ _ _ _ _ H) as He.
+  assert (E : map (tkey e src d) t = map (fun x => ((5 * Z.of_N ph + cls)%Z, x)) (map wkey t)).
+  { rewrite map_map. apply map_ext_in. intros x Hx. rewrite Forall_forall in He.
+    specialize (He x Hx).
+    assert (P : forall q : point, fst q = m -> In (snd q) (pass_weights hooks m pred s) ->
+                seg_of_point e src d q = (5 * Z.of_N ph + cls)%Z).
+    { intros q Hq Hw. unfold seg_of_point. rewrite Hq, Hph. apply pass_weights_in in Hw.
+      destruct Hw as [Hw _]. rewrite (Hcls _ Hw). reflexivity. }
+    destruct x; cbn in He; try contradiction.
+    - destruct He as (_ & _ & A & B & _). cbn [tkey]. rewrite (P _ A B). reflexivity.
+    - destruct He as [A B]. cbn [tkey]. rewrite (P _ A B). reflexivity.
+    - destruct He as [A B]. cbn [tkey]. rewrite (P _ A B). reflexivity.
+    - destruct He as [A B]. cbn [tkey]. rewrite (P _ A B). reflexivity.
+    - destruct He as [A B]. cbn [tkey]. rewrite (P _ A B). reflexivity. }
+  rewrite E. apply sseg_const. exact Hs.
+Qed.
+
+Lemma wneg_cls w : wneg w = true -> (if wneg w then 1 else 3)%Z = 1%Z.
+Proof. intros ->. reflexivity. Qed.
+Lemma wnonneg_cls w : wnonneg w = true -> (if wneg w then 1 else 3)%Z = 3%Z.
+Proof.
+  unfold wnonneg, wneg. intro H. apply Z.leb_le in H.
+  destruct (w <? 0)%Z eqn:E; [apply Z.ltb_lt in E; lia|reflexivity].
+Qed.
+
+(* shapes of a callback's trace *)
+Section Shapes.
+  Variable p : Z.
+  Variables (x0 x4 : Z) (K1 K2 K3 : list (Z * Z)).
+  Hypothesis H1 : sseg (5 * p + 1) (5 * p + 1) K1.
+  Hypothesis H2 : sseg (5 * p + 2) (5 * p + 2) K2.
+  Hypothesis H3 : sseg (5 * p + 3) (5 * p + 3) K3.
+
+  Let P0 := (5 * p)%Z. Let P1 := (5 * p + 1)%Z. Let P2 := (5 * p + 2)%Z.
+  Let P3 := (5 * p + 3)%Z. Let P4 := (5 * p + 4)%Z.
+
+  Lemma shape_a : sseg (5 * p) (5 * p + 4) ((5 * p, x0)%Z :: K1).
+  Proof.
+    change (sseg P0 P4 ([(P0, x0)] ++ K1)).
+    apply (sseg_app P0 P0 P1 P4); [apply sseg_single|apply (sseg_weaken P1 P1); [exact H1| |]| | |];
+      unfold P0, P1, P4; lia.
+  Qed.
+  Lemma shape_b : sseg (5 * p) (5 * p + 4) ((5 * p, x0)%Z :: K1 ++ [(5 * p + 4, x4)%Z]).
+  Proof.
+    change (sseg P0 P4 ([(P0, x0)] ++ K1 ++ [(P4, x4)])).
+    apply (sseg_app P0 P0 P1 P4); [apply sseg_single| | | |]; try (unfold P0, P1, P4; lia).
+    apply (sseg_app P1 P1 P4 P4); [exact H1|apply sseg_single| | |]; unfold P1, P4; lia.
+  Qed.
+  Lemma shape_c : sseg (5 * p) (5 * p + 4) ((5 * p, x0)%Z :: K1 ++ K2 ++ K3).
+  Proof.
+    change (sseg P0 P4 ([(P0, x0)] ++ K1 ++ K2 ++ K3)).
+    apply (sseg_app P0 P0 P1 P4); [apply sseg_single| | | |]; try (unfold P0, P1, P4; lia).
+    apply (sseg_app P1 P1 P2 P4); [exact H1| | | |]; try (unfold P1, P2, P4; lia).
+    apply (sseg_app P2 P2 P3 P4); [exact H2|apply (sseg_weaken P3 P3); [exact H3| |]| | |];
+      unfold P2, P3, P4; lia.
+  Qed.
+  Lemma shape_d : sseg (5 * p) (5 * p + 4) ((5 * p, x0)%Z :: K1 ++ K2 ++ K3 ++ [(5 * p + 4, x4)%Z]).
+  Proof.
+    change (sseg P0 P4 ([(P0, x0)] ++ K1 ++ K2 ++ K3 ++ [(P4, x4)])).
+    apply (sseg_app P0 P0 P1 P4); [apply sseg_single| | | |]; try (unfold P0, P1, P4; lia).
+    apply (sseg_app P1 P1 P2 P4); [exact H1| | | |]; try (unfold P1, P2, P4; lia).
+    apply (sseg_app P2 P2 P3 P4); [exact H2| | | |]; try (unfold P2, P3, P4; lia).
+    apply (sseg_app P3 P3 P4 P4); [exact H3|apply sseg_single| | |]; unfold P3, P4; lia.
+  Qed.
+End Shapes.
+
+Lemma builtin_before_keys e src d e' s s' tb :
+  builtin_before e' s = (s', tb) -> sseg 2 2 (map (tkey e src d) tb).
+Proof.
+  unfold builtin_before. destruct e'; try (intro H; inversion H; apply sseg_nil).
+  - intro H; inversion H. cbn. apply (sseg_single 2).
+  - destruct (set_soeor_if_empty s) as [s1 [|]]; intro H; inversion H; cbn;
+      [apply (sseg_single 2)|apply sseg_nil].
+  - destruct (set_soeor_if_empty s) as [s1 [|]]; intro H; inversion H; cbn;
+      [apply (sseg_single 2)|apply sseg_nil].
+Qed.
+
+Lemma builtin_after_keys e src d e' err s s' ta :
+  builtin_after e' err s = (s', ta) -> sseg 22 22 (map (tkey e src d) ta).
+Proof.
+  unfold builtin_after. destruct e'; try (intro H; inversion H; apply sseg_nil).
+  - intro H; inversion H. destruct err; cbn; apply (sseg_single 22).
+  - intro H; inversion H. destruct err; cbn; apply (sseg_single 22).
+  - destruct (set_eoeor_if_empty s) as [s1 [|]]; intro H; inversion H; cbn;
+      [apply (sseg_single 22)|apply sseg_nil].
+Qed.
+
+Lemma before_stage_keys hooks orc e src d s s' t errs c :
+  before_stage hooks orc e s = (s', t, errs, c) -> sseg 0 4 (map (tkey e src d) t).
+Proof.
+  unfold before_stage.
+  destruct (run_pass hooks orc (MBefore e) wneg s) as [[s1 t1] p1] eqn:E1.
+  pose proof (run_pass_keys hooks orc e src d _ 0 _ 1%Z _ _ _ _ E1 (phase_before e src d) wneg_cls) as K1.
+  assert (B : forall b er, tkey e src d (TStep (SMoment (MBefore e)) b er) = ((if b then 0 else 4)%Z, 0%Z)).
+  { intros b er. cbn [tkey]. rewrite phase_before. destruct b; reflexivity. }
+  destruct p1.
+  - destruct (builtin_before e s1) as [s2 tb] eqn:Eb.
+    pose proof (builtin_before_keys e src d _ _ _ _ Eb) as K2.
+    destruct (run_pass hooks orc (MBefore e) wnonneg s2) as [[s3 t3] p3] eqn:E3.
+    pose proof (run_pass_keys hooks orc e src d _ 0 _ 3%Z _ _ _ _ E3 (phase_before e src d) wnonneg_cls) as K3.
+    destruct p3; intro H; inversion H; subst; clear H; unfold bstep, estep;
+      rewrite ?map_cons, ?map_app, ?map_cons, ?B; cbn [map].
+    + apply (shape_d 0 0 0 _ _ _ K1 K2 K3).
+    + apply (shape_d 0 0 0 _ _ _ K1 K2 K3).
+    + apply (shape_c 0 0 _ _ _ K1 K2 K3).
+  - intro H; inversion H; subst; clear H; unfold bstep, estep.
+    rewrite ?map_cons, ?map_app, ?map_cons, ?B; cbn [map].
+    apply (shape_b 0 0 0 _ K1).
+  - intro H; inversion H; subst; clear H; unfold bstep.
+    rewrite ?map_cons, ?B. apply (shape_a 0 0 _ K1).
+Qed.
+
+Lemma leave_stage_keys hooks orc e src d s s' t errs c :
+  leave_stage hooks orc src s = (s', t, errs, c) -> sseg 5 9 (map (tkey e src d) t).
+Proof.
+  unfold leave_stage.
+  destruct (run_pass hooks orc (MLeave src) wneg s) as [[s1 t1] p1] eqn:E1.
+  pose proof (run_pass_keys hooks orc e src d _ 1 _ 1%Z _ _ _ _ E1 (phase_leave e src d) wneg_cls) as K1.
+  assert (B : forall b er, tkey e src d (TStep (SMoment (MLeave src)) b er) = ((if b then 5 else 9)%Z, 0%Z)).
+  { intros b er. cbn [tkey]. rewrite phase_leave. destruct b; reflexivity. }
+  destruct p1.
+  - destruct (run_pass hooks orc (MLeave src) wnonneg (builtin_leave src s1)) as [[s3 t3] p3] eqn:E3.
+    pose proof (run_pass_keys hooks orc e src d _ 1 _ 3%Z _ _ _ _ E3 (phase_leave e src d) wnonneg_cls) as K3.
+    destruct p3; intro H; inversion H; subst; clear H; unfold bstep, estep;
+      rewrite ?map_cons, ?map_app, ?map_cons, ?B; cbn [map].
+    + apply (shape_d 1 0 0 _ [] _ K1 (sseg_nil _ _) K3).
+    + apply (shape_d 1 0 0 _ [] _ K1 (sseg_nil _ _) K3).
+    + apply (shape_c 1 0 _ [] _ K1 (sseg_nil _ _) K3).
+  - intro H; inversion H; subst; clear H; unfold bstep, estep.
+    rewrite ?map_cons, ?map_app, ?map_cons, ?B; cbn [map].
+    apply (shape_b 1 0 0 _ K1).
+  - intro H; inversion H; subst; clear H; unfold bstep.
+    rewrite ?map_cons, ?B. apply (shape_a 1 0 _ K1).
+Qed.
+
+Lemma enter_stage_keys hooks orc e src d s s' t errs c :
+  enter_stage hooks orc d s = (s', t, errs, c) -> sseg 15 19 (map (tkey e src d) t).
+Proof.
+  unfold enter_stage.
+  destruct (run_pass hooks orc (MEnter d) wneg s) as [[s1 t1] p1] eqn:E1.
+  pose proof (run_pass_keys hooks orc e src d _ 3 _ 1%Z _ _ _ _ E1 (phase_enter e src d) wneg_cls) as K1.
+  assert (B : forall b er, tkey e src d (TStep (SMoment (MEnter d)) b er) = ((if b then 15 else 19)%Z, 0%Z)).
+  { intros b er. cbn [tkey]. rewrite phase_enter. destruct b; reflexivity. }
+  destruct (is_crash p1).
+  - intro H; inversion H; subst; clear H; unfold bstep.
+    rewrite ?map_cons, ?B. apply (shape_a 3 0 _ K1).
+  - destruct (run_pass hooks orc (MEnter d) wnonneg s1) as [[s2 t2] p2] eqn:E2.
+    pose proof (run_pass_keys hooks orc e src d _ 3 _ 3%Z _ _ _ _ E2 (phase_enter e src d) wnonneg_cls) as K3.
+    destruct (is_crash p2); intro H; inversion H; subst; clear H; unfold bstep, estep;
+      rewrite ?map_cons, ?map_app, ?map_cons, ?B; cbn [map].
+    + apply (shape_c 3 0 _ [] _ K1 (sseg_nil _ _) K3).
+    + apply (shape_d 3 0 0 _ [] _ K1 (sseg_nil _ _) K3).
+Qed.
+
+Lemma after_stage_keys hooks orc e src d err0 s s' t errs c :
+  after_stage hooks orc e err0 s = (s', t, errs, c) -> sseg 20 24 (map (tkey e src d) t).
+Proof.
+  unfold after_stage.
+  destruct (run_pass hooks orc (MAfter e) wneg s) as [[s1 t1] p1] eqn:E1.
+  pose proof (run_pass_keys hooks orc e src d _ 4 _ 1%Z _ _ _ _ E1 (phase_after e src d) wneg_cls) as K1.
+  assert (B : forall b er, tkey e src d (TStep (SMoment (MAfter e)) b er) = ((if b then 20 else 24)%Z, 0%Z)).
+  { intros b er. cbn [tkey]. rewrite phase_after. destruct b; reflexivity. }
+  destruct (is_crash p1).
+  - intro H; inversion H; subst; clear H; unfold bstep.
+    rewrite ?map_cons, ?B. apply (shape_a 4 0 _ K1).
+  - destruct (builtin_after e (err0 || nonnil (perrs (MAfter e) p1)) s1) as [s2 ta] eqn:Ea.
+    pose proof (builtin_after_keys e src d _ _ _ _ _ Ea) as K2.
+    destruct (run_pass hooks orc (MAfter e) wnonneg s2) as [[s3 t3] p3] eqn:E3.
+    pose proof (run_pass_keys hooks orc e src d _ 4 _ 3%Z _ _ _ _ E3 (phase_after e src d) wnonneg_cls) as K3.
+    destruct (is_crash p3); intro H; inversion H; subst; clear H; unfold bstep, estep;
+      rewrite ?map_cons, ?map_app, ?map_cons, ?B; cbn [map].
+    + apply (shape_c 4 0 _ _ _ K1 K2 K3).
+    + apply (shape_d 4 0 0 _ _ _ K1 K2 K3).
+Qed.
+
+Lemma body_trace_keys e src d ok : sseg 10 14 (map (tkey e src d) (body_trace e ok)).
+Proof.
+  unfold body_trace, bstep, estep. cbn.
+  change (sseg 10 14 ([(10, 0)%Z] ++ [(12, 0)%Z] ++ [(14, 0)%Z])).
+  apply (sseg_app 10 10 12 14); [apply sseg_single| |lia|lia|lia].
+  apply (sseg_app 12 12 14 14); [apply sseg_single|apply sseg_single|lia|lia|lia].
+Qed.
+
+(* C08: the whole trace of a transition is ordered by (moment, sign class, weight, start <
+   collect < hook tasks), built-in work between the negative and the non-negative weights *)
+Lemma transition_sorted hooks orc e b s s' t r d :
+  transition hooks orc e b s = (s', t, r) -> dst_of e (e_st s) = Some d ->
+  StronglySorted kle (map (tkey e (e_st s) d) t).
+Proof.
+  unfold transition. intros H Hd. rewrite Hd in H.
+  set (src := e_st s) in *.
+  destruct (before_stage hooks orc e s) as [[[s1 tB] eB] cB] eqn:EB.
+  pose proof (before_stage_keys _ _ _ src d _ _ _ _ _ EB) as KB.
+  destruct cB; [inversion H; subst; apply KB|].
+  destruct eB as [|pe eB]; [|inversion H; subst; apply KB].
+  destruct (leave_stage hooks orc src s1) as [[[s2 tL] eL] cL] eqn:EL.
+  pose proof (leave_stage_keys _ _ e src d _ _ _ _ _ EL) as KL.
+  assert (KBL : sseg 0 9 (map (tkey e src d) (tB ++ tL))).
+  { rewrite map_app. apply (sseg_app 0 4 5 9); [exact KB|exact KL|lia|lia|lia]. }
+  destruct cL; [inversion H; subst; apply KBL|].
+  destruct eL as [|pe eL]; [|inversion H; subst; apply KBL].
+  assert (KBLT : forall ok, sseg 0 14 (map (tkey e src d) (tB ++ tL ++ body_trace e ok))).
+  { intro ok. rewrite app_assoc, map_app.
+    apply (sseg_app 0 9 10 14); [exact KBL|apply body_trace_keys|lia|lia|lia]. }
+  destruct b; [|inversion H; subst; apply KBLT|inversion H; subst; apply KBLT].
+  destruct (enter_stage hooks orc d (set_st d s2)) as [[[s4 tE] eE] cE] eqn:EE.
+  pose proof (enter_stage_keys _ _ e src d _ _ _ _ _ EE) as KE.
+  assert (K4 : sseg 0 19 (map (tkey e src d) (tB ++ tL ++ body_trace e true ++ tE))).
+  { replace (tB ++ tL ++ body_trace e true ++ tE) with ((tB ++ tL ++ body_trace e true) ++ tE)
+      by (rewrite <- !app_assoc; reflexivity).
+    rewrite map_app. apply (sseg_app 0 14 15 19); [apply KBLT|exact KE|lia|lia|lia]. }
+  destruct cE; [inversion H; subst; apply K4|].
+  destruct (after_stage hooks orc e (nonnil eE) s4) as [[[s5 tA] eA] cA] eqn:EA.
+  pose proof (after_stage_keys _ _ e src d _ _ _ _ _ _ EA) as KA.
+  assert (K5 : sseg 0 24 (map (tkey e src d) (tB ++ tL ++ body_trace e true ++ tE ++ tA))).
+  { replace (tB ++ tL ++ body_trace e true ++ tE ++ tA) with ((tB ++ tL ++ body_trace e true ++ tE) ++ tA)
+      by (rewrite <- !app_assoc; reflexivity).
+    rewrite map_app. apply (sseg_app 0 19 20 24); [exact K4|exact KA|lia|lia|lia]. }
+  destruct cA; inversion H; subst; apply K5.
+Qed.
+
+(* ------------------------------------------------------------------ started = collected + pending *)
+
+Definition balanced (g : inst -> bool) (s : est) (t : list tev) (s' : est) : Prop :=
+  (nf g (starts t) + pn g s = nf g (collects t) + pn g s')%nat /\ cancels t = [].
+
+Lemma balanced_nil g s s' : e_pend s = e_pend s' -> balanced g s [] s'.
+Proof. intro H. unfold balanced, pn. rewrite H. cbn. split; [lia|reflexivity]. Qed.
+
+Lemma balanced_app g s t1 s1 t2 s2 :
+  balanced g s t1 s1 -> balanced g s1 t2 s2 -> balanced g s (t1 ++ t2) s2.
+Proof.
+  unfold balanced. intros [A1 C1] [A2 C2].
+  rewrite starts_app, collects_app, cancels_app, !nf_app, C1, C2. split; [lia|reflexivity].
+Qed.
+
+Definition quiet (e : tev) : Prop :=
+  match e with TStart _ _ _ | TCollect _ _ | TCancel _ => False | _ => True end.
+
+Lemma balanced_cons g s e t s' : quiet e -> balanced g s t s' -> balanced g s (e :: t) s'.
+Proof.
+  unfold balanced. intros Hq [A C]. destruct e; cbn in Hq; try contradiction; cbn; auto.
+Qed.
+
+Lemma balanced_quiet g s t s' : Forall quiet t -> e_pend s = e_pend s' -> balanced g s t s'.
+Proof.
+  induction 1 as [|e t He _ IH]; intro Hp; [apply balanced_nil; exact Hp|].
+  apply balanced_cons; [exact He|apply IH; exact Hp].
+Qed.
+
+Lemma set_soeor_pend s : e_pend (fst (set_soeor_if_empty s)) = e_pend s.
+Proof. unfold set_soeor_if_empty. destruct (is_empty _); reflexivity. Qed.
+Lemma set_eoeor_pend s : e_pend (fst (set_eoeor_if_empty s)) = e_pend s.
+Proof. unfold set_eoeor_if_empty. destruct (is_empty _); reflexivity. Qed.
+Lemma builtin_leave_pend src s : e_pend (builtin_leave src s) = e_pend s.
+Proof. unfold builtin_leave. destruct src; try reflexivity. apply set_soeor_pend. Qed.
+Lemma drop_run_number_pend e s : e_pend (drop_run_number e s) = e_pend s.
+Proof. destruct e; reflexivity. Qed.
+
+Lemma soeor_balanced g s s1 dn (x : tev) :
+  set_soeor_if_empty s = (s1, dn) -> quiet x -> balanced g s (if dn then [x] else []) s1.
+Proof.
+  intros H Hq. pose proof (set_soeor_pend s) as P. rewrite H in P. cbn in P.
+  destruct dn; apply balanced_quiet; auto.
+Qed.
+Lemma eoeor_balanced g s s1 dn (x : tev) :
+  set_eoeor_if_empty s = (s1, dn) -> quiet x -> balanced g s (if dn then [x] else []) s1.
+Proof.
+  intros H Hq. pose proof (set_eoeor_pend s) as P. rewrite H in P. cbn in P.
+  destruct dn; apply balanced_quiet; auto.
+Qed.
+
+Lemma builtin_before_balanced g e s s' tb : builtin_before e s = (s', tb) -> balanced g s tb s'.
+Proof.
+  unfold builtin_before. destruct e.
+  - intro H; inversion H; subst. apply balanced_nil; reflexivity.
+  - intro H; inversion H; subst. apply balanced_nil; reflexivity.
+  - intro H; inversion H; subst. apply balanced_nil; reflexivity.
+  - intro H; inversion H; subst. apply balanced_quiet; [repeat constructor|reflexivity].
+  - destruct (set_soeor_if_empty s) as [s1 dn] eqn:E. intro H; inversion H; subst.
+    eapply soeor_balanced; [exact E|exact I].
+  - intro H; inversion H; subst. apply balanced_nil; reflexivity.
+  - destruct (set_soeor_if_empty s) as [s1 dn] eqn:E. intro H; inversion H; subst.
+    eapply soeor_balanced; [exact E|exact I].
+  - intro H; inversion H; subst. apply balanced_nil; reflexivity.
+Qed.
+
+Lemma builtin_after_balanced g e err s s' ta : builtin_after e err s = (s', ta) -> balanced g s ta s'.
+Proof.
+  unfold builtin_after. destruct e.
+  - intro H; inversion H; subst. apply balanced_nil; reflexivity.
+  - intro H; inversion H; subst. apply balanced_nil; reflexivity.
+  - intro H; inversion H; subst. apply balanced_nil; reflexivity.
+  - intro H; inversion H; subst. apply balanced_quiet; [repeat constructor|reflexivity].
+  - intro H; inversion H; subst. apply balanced_quiet; [repeat constructor|reflexivity].
+  - intro H; inversion H; subst. apply balanced_nil; reflexivity.
+  - destruct (set_eoeor_if_empty s) as [s1 dn] eqn:E. intro H; inversion H; subst.
+    eapply eoeor_balanced; [exact E|exact I].
+  - intro H; inversion H; subst. apply balanced_nil; reflexivity.
+Qed.
+
+Lemma run_pass_balanced g hooks orc m pred s s' t p :
+  run_pass hooks orc m pred s = (s', t, p) -> balanced g s t s'.
+Proof. apply run_pass_count. Qed.
+
+Ltac bal_end :=
+  first [ apply balanced_nil; first [reflexivity | symmetry; apply builtin_leave_pend
+                                     | symmetry; apply drop_run_number_pend ]
+        | apply balanced_cons; [exact I|bal_end] ].
+Ltac bal :=
+  first [ eassumption
+        | bal_end
+        | apply balanced_cons; [exact I|bal]
+        | eapply balanced_app; [eassumption|bal] ].
+
+Lemma before_stage_balanced g hooks orc e s s' t errs c :
+  before_stage hooks orc e s = (s', t, errs, c) -> balanced g s t s'.
+Proof.
+  unfold before_stage, bstep, estep.
+  destruct (run_pass hooks orc (MBefore e) wneg s) as [[s1 t1] p1] eqn:E1.
+  apply (run_pass_balanced g) in E1.
+  destruct p1.
+  - destruct (builtin_before e s1) as [s2 tb] eqn:Eb. apply (builtin_before_balanced g) in Eb.
+    destruct (run_pass hooks orc (MBefore e) wnonneg s2) as [[s3 t3] p3] eqn:E3.
+    apply (run_pass_balanced g) in E3.
+    destruct p3; intro H; inversion H; subst; clear H; bal.
+  - intro H; inversion H; subst; clear H; bal.
+  - intro H; inversion H; subst; clear H; bal.
+Qed.
+
+Lemma leave_stage_balanced g hooks orc src s s' t errs c :
+  leave_stage hooks orc src s = (s', t, errs, c) -> balanced g s t s'.
+Proof.
+  unfold leave_stage, bstep, estep.
+  destruct (run_pass hooks orc (MLeave src) wneg s) as [[s1 t1] p1] eqn:E1.
+  apply (run_pass_balanced g) in E1.
+  destruct p1.
+  - destruct (run_pass hooks orc (MLeave src) wnonneg (builtin_leave src s1)) as [[s3 t3] p3] eqn:E3.
+    apply (run_pass_balanced g) in E3.
+    assert (E3' : balanced g s1 t3 s3).
+    { unfold balanced, pn in *. rewrite builtin_leave_pend in E3. exact E3. }
+    destruct p3; intro H; inversion H; subst; clear H; bal.
+  - intro H; inversion H; subst; clear H; bal.
+  - intro H; inversion H; subst; clear H; bal.
+Qed.
+
+Lemma enter_stage_balanced g hooks orc d s s' t errs c :
+  enter_stage hooks orc d s = (s', t, errs, c) -> balanced g s t s'.
+Proof.
+  unfold enter_stage, bstep, estep.
+  destruct (run_pass hooks orc (MEnter d) wneg s) as [[s1 t1] p1] eqn:E1.
+  apply (run_pass_balanced g) in E1.
+  destruct (is_crash p1); [intro H; inversion H; subst; clear H; bal|].
+  destruct (run_pass hooks orc (MEnter d) wnonneg s1) as [[s2 t2] p2] eqn:E2.
+  apply (run_pass_balanced g) in E2.
+  destruct (is_crash p2); intro H; inversion H; subst; clear H; bal.
+Qed.
+
+Lemma after_stage_balanced g hooks orc e err0 s s' t errs c :
+  after_stage hooks orc e err0 s = (s', t, errs, c) -> balanced g s t s'.
+Proof.
+  unfold after_stage, bstep, estep.
+  destruct (run_pass hooks orc (MAfter e) wneg s) as [[s1 t1] p1] eqn:E1.
+  apply (run_pass_balanced g) in E1.
+  destruct (is_crash p1); [intro H; inversion H; subst; clear H; bal|].
+  destruct (builtin_after e (err0 || nonnil (perrs (MAfter e) p1)) s1) as [s2 ta] eqn:Ea.
+  apply (builtin_after_balanced g) in Ea.
+  destruct (run_pass hooks orc (MAfter e) wnonneg s2) as [[s3 t3] p3] eqn:E3.
+  apply (run_pass_balanced g) in E3.
+  destruct (is_crash p3); intro H; inversion H; subst; clear H; bal.
+Qed.
+
+Lemma body_trace_balanced g e ok s s' : e_pend s = e_pend s' -> balanced g s (body_trace e ok) s'.
+Proof. intro H. apply balanced_quiet; [repeat constructor|exact H]. Qed.
+
+Opaque body_trace.
+Lemma transition_balanced g hooks orc e b s s' t r :
+  transition hooks orc e b s = (s', t, r) -> balanced g s t s'.
+Proof.
+  unfold transition. destruct (dst_of e (e_st s)) as [d|];
+    [|intro H; inversion H; apply balanced_nil; reflexivity].
+  destruct (before_stage hooks orc e s) as [[[s1 tB] eB] cB] eqn:EB.
+  apply (before_stage_balanced g) in EB.
+  destruct cB; [intro H; inversion H; subst; exact EB|].
+  destruct eB as [|pe eB]; [|intro H; inversion H; subst; exact EB].
+  destruct (leave_stage hooks orc (e_st s) s1) as [[[s2 tL] eL] cL] eqn:EL.
+  apply (leave_stage_balanced g) in EL.
+  destruct cL; [intro H; inversion H; subst; eapply balanced_app; eassumption|].
+  destruct eL as [|pe eL]; [|intro H; inversion H; subst; eapply balanced_app; eassumption].
+  destruct b.
+  - destruct (enter_stage hooks orc d (set_st d s2)) as [[[s4 tE] eE] cE] eqn:EE.
+    apply (enter_stage_balanced g) in EE.
+    assert (EE' : balanced g s2 tE s4) by exact EE.
+    destruct cE.
+    + intro H; inversion H; subst.
+      eapply balanced_app; [eassumption|]. eapply balanced_app; [eassumption|].
+      eapply balanced_app; [apply body_trace_balanced; reflexivity|exact EE'].
+    + destruct (after_stage hooks orc e (nonnil eE) s4) as [[[s5 tA] eA] cA] eqn:EA.
+      apply (after_stage_balanced g) in EA.
+      destruct cA; intro H; inversion H; subst;
+        (eapply balanced_app; [eassumption|]; eapply balanced_app; [eassumption|];
+         eapply balanced_app; [apply body_trace_balanced; reflexivity|];
+         eapply balanced_app; [exact EE'|exact EA]).
+  - intro H; inversion H; subst.
+    eapply balanced_app; [eassumption|]. eapply balanced_app; [eassumption|].
+    apply body_trace_balanced. reflexivity.
+  - intro H; inversion H; subst.
+    eapply balanced_app; [eassumption|]. eapply balanced_app; [eassumption|].
+    apply body_trace_balanced. destruct e; reflexivity.
+Qed.
+Transparent body_trace.
+
+(* ------------------------------------------------------------------ operations and histories *)
+
+Definition wbal (g : inst -> bool) (s : est) (t : list tev) (s' : est) : Prop :=
+  (nf g (starts t) + pn g s = nf g (collects t) + pn g s')%nat.
+
+Lemma balanced_wbal g s t s' : balanced g s t s' -> wbal g s t s'.
+Proof. intros [A _]. exact A. Qed.
+
+Lemma wbal_app g s t1 s1 t2 s2 : wbal g s t1 s1 -> wbal g s1 t2 s2 -> wbal g s (t1 ++ t2) s2.
+Proof. unfold wbal. intros A B. rewrite starts_app, collects_app, !nf_app. lia. Qed.
+
+Lemma cancel_all_proj s :
+  starts (cancel_all s) = [] /\ collects (cancel_all s) = [] /\ cancels (cancel_all s) = map snd (e_pend s).
+Proof.
+  unfold cancel_all. induction (e_pend s) as [|x l (A & B & C)]; cbn; [auto|].
+  repeat split; auto. f_equal. exact C.
+Qed.
+
+Lemma wbal_same g s t s' :
+  starts t = [] -> collects t = [] -> e_pend s = e_pend s' -> wbal g s t s'.
+Proof. intros A B C. unfold wbal, pn. rewrite A, B, C. reflexivity. Qed.
+
+Lemma teardown_stamps_balanced g s s' ts : teardown_stamps s = (s', ts) -> balanced g s ts s'.
+Proof.
+  unfold teardown_stamps. destruct (e_st s); try (intro H; inversion H; subst; apply balanced_nil; reflexivity).
+  destruct (set_soeor_if_empty s) as [s1 d1] eqn:E1.
+  destruct (set_eoeor_if_empty s1) as [s2 d2] eqn:E2.
+  intro H; inversion H; subst.
+  eapply balanced_app; [eapply soeor_balanced; [exact E1|exact I]|eapply eoeor_balanced; [exact E2|exact I]].
+Qed.
+
+Lemma destroy_trace_proj g hooks orc s :
+  nf g (starts (destroy_trace hooks orc s)) = nf g (collects (destroy_trace hooks orc s)) /\
+  cancels (destroy_trace hooks orc s) = [].
+Proof.
+  unfold destroy_trace. induction (destroy_weights hooks) as [|w ws [IH1 IH2]]; cbn [flat_map]; [split; reflexivity|].
+  rewrite starts_app, collects_app, cancels_app, !nf_app, IH1, IH2.
+  set (hs := filter is_call (destroy_hooks_at hooks w)).
+  assert (A : forall l : list hook,
+    nf g (starts (flat_map (fun h => [TStart (new_inst orc h) h (e_rv s); TCollect (new_inst orc h) (h_trig h)]) l)) =
+    nf g (collects (flat_map (fun h => [TStart (new_inst orc h) h (e_rv s); TCollect (new_inst orc h) (h_trig h)]) l)) /\
+    cancels (flat_map (fun h => [TStart (new_inst orc h) h (e_rv s); TCollect (new_inst orc h) (h_trig h)]) l) = []).
+  { induction l as [|h l [I1 I2]]; cbn; [split; reflexivity|]. rewrite !nf_cons, I1, I2. split; reflexivity. }
+  destruct (A hs) as [A1 A2].
+  rewrite starts_app, collects_app, cancels_app, !nf_app, A1, A2.
+  destruct (map h_id (filter is_task (destroy_hooks_at hooks w))); cbn; split; try reflexivity; lia.
+Qed.
+
+Lemma run_op_wbal g hooks i o s s' t r : run_op hooks i o s = (s', t, r) -> wbal g s t s'.
+Proof.
+  unfold run_op. destruct (o_kind o).
+  - intro H. apply balanced_wbal. eapply transition_balanced. exact H.
+  - intro H; inversion H; subst. apply wbal_same; reflexivity.
+  - destruct (transition hooks (oracle_of i o) GO_ERROR (o_body o) s) as [[s1 t1] r1] eqn:E.
+    apply (transition_balanced g) in E. apply balanced_wbal in E.
+    assert (P : forall x, e_pend (match e_st s1 with ERROR => s1 | _ => set_st ERROR s1 end) = e_pend x -> e_pend s1 = e_pend x).
+    { intros x. destruct (e_st s1); cbn; auto. }
+    destruct r1; intro H; inversion H; subst; try exact E;
+      unfold wbal, pn in *; rewrite <- (P _ eq_refl); exact E.
+  - unfold leave_all. destruct (run_pass hooks (oracle_of i o) (MLeave (e_st s)) wall s) as [[s1 t1] p] eqn:E.
+    apply (run_pass_balanced g) in E. apply balanced_wbal in E.
+    destruct (cancel_all_proj s1) as (A & B & C).
+    destruct p; intro H; inversion H; subst; try exact E;
+      (eapply wbal_app; [exact E|apply wbal_same; auto]).
+  - unfold leave_all. destruct (run_pass hooks (oracle_of i o) (MLeave (e_st s)) wall s) as [[s1 t1] p] eqn:E.
+    apply (run_pass_balanced g) in E. apply balanced_wbal in E.
+    destruct (is_crash p); [intro H; inversion H; subst; exact E|].
+    destruct (teardown_stamps s1) as [s2 ts] eqn:Et.
+    apply (teardown_stamps_balanced g) in Et. apply balanced_wbal in Et.
+    intro H; inversion H; subst.
+    eapply wbal_app; [exact E|]. eapply wbal_app; [exact Et|].
+    destruct (destroy_trace_proj g hooks (oracle_of i o) s2) as [D1 D2].
+    destruct (cancel_all_proj s2) as (A & B & C).
+    unfold wbal. rewrite starts_app, collects_app, !nf_app, A, B, D1. cbn. reflexivity.
+Qed.
+
+Lemma run_ops_wbal g hooks : forall ops i s s' l,
+  run_ops hooks i ops s = (s', l) -> wbal g s (full_trace l) s'.
+Proof.
+  induction ops as [|o ops IH]; intros i s s' l; cbn.
+  - intro H; inversion H; subst. apply wbal_same; reflexivity.
+  - destruct (run_op hooks i o s) as [[s1 t] res] eqn:E.
+    apply (run_op_wbal g) in E.
+    assert (One : wbal g s (full_trace [(t, res, s1)]) s1).
+    { unfold full_trace. cbn. rewrite app_nil_r. exact E. }
+    destruct res; try (intro H; inversion H; subst; exact One);
+      (destruct (run_ops hooks (N.succ i) ops s1) as [s2 l2] eqn:E2; apply IH in E2;
+       intro H; inversion H; subst; unfold full_trace in *; cbn [flat_map fst];
+       eapply wbal_app; [exact E|exact E2]).
+Qed.
+
+(* what a cancelling operation cancels: exactly what is pending after its leave hooks *)
+Lemma run_op_cancels hooks i o s s' t r :
+  run_op hooks i o s = (s', t, r) -> is_cancel_op o = true -> r <> RCrash ->
+  cancels t = map snd (e_pend s').
+Proof.
+  unfold run_op, is_cancel_op. destruct (o_kind o); try discriminate.
+  - unfold leave_all. destruct (run_pass hooks (oracle_of i o) (MLeave (e_st s)) wall s) as [[s1 t1] p] eqn:E.
+    apply (run_pass_balanced (fun _ => true)) in E. destruct E as [_ Ec].
+    destruct (cancel_all_proj s1) as (A & B & C).
+    destruct p; intros H _ Hr; inversion H; subst; try (exfalso; apply Hr; reflexivity);
+      rewrite cancels_app, Ec, C; reflexivity.
+  - unfold leave_all. destruct (run_pass hooks (oracle_of i o) (MLeave (e_st s)) wall s) as [[s1 t1] p] eqn:E.
+    apply (run_pass_balanced (fun _ => true)) in E. destruct E as [_ Ec].
+    destruct (is_crash p); [intros H _ Hr; inversion H; subst; exfalso; apply Hr; reflexivity|].
+    destruct (teardown_stamps s1) as [s2 ts] eqn:Et.
+    pose proof (teardown_stamps_balanced (fun _ => true) _ _ _ Et) as [_ Etc].
+    intros H _ _; inversion H; subst.
+    destruct (destroy_trace_proj (fun _ => true) hooks (oracle_of i o) s2) as [_ D2].
+    destruct (cancel_all_proj s2) as (A & B & C).
+    rewrite !cancels_app, Ec, Etc, D2, C. reflexivity.
+Qed.
+
+Lemma pn_est0 g init : pn g (est0 init) = 0%nat.
+Proof. reflexivity. Qed.
+
+(* C08: at any time the pending calls are exactly the started and not yet collected ones *)
+Lemma pending_exact hooks ops init s l (g : inst -> bool) :
+  run_ops hooks 0 ops (est0 init) = (s, l) ->
+  nf g (starts (full_trace l)) = (nf g (collects (full_trace l)) + pn g s)%nat.
+Proof.
+  intro H. apply (run_ops_wbal g) in H. unfold wbal in H. rewrite pn_est0 in H. lia.
+Qed.
+
+(* C08: after a teardown every started call has been collected or cancelled, counted with
+   multiplicity, for every set [g] of instances *)
+Lemma collect_once hooks ops init s l i fin s' t r (g : inst -> bool) :
+  run_ops hooks 0 ops (est0 init) = (s, l) ->
+  is_cancel_op fin = true -> run_op hooks i fin s = (s', t, r) -> r <> RCrash ->
+  nf g (starts (full_trace l ++ t)) =
+  (nf g (collects (full_trace l ++ t)) + nf g (cancels t))%nat.
+Proof.
+  intros H Hc Hop Hr.
+  apply (run_ops_wbal g) in H. pose proof (run_op_wbal g _ _ _ _ _ _ _ Hop) as H2.
+  rewrite (run_op_cancels _ _ _ _ _ _ _ Hop Hc Hr).
+  pose proof (wbal_app _ _ _ _ _ _ H H2) as H3. unfold wbal in H3. rewrite pn_est0 in H3.
+  unfold pn in H3. lia.
+Qed.
